@@ -449,6 +449,7 @@ impl<G: Getter<Quantity, E> + ?Sized, E: Copy + Debug> Updatable<E> for Derivati
             Some(some) => some,
             None => {
                 self.prev_output = Some(output);
+                self.value = Ok(None);
                 return Ok(());
             }
         };
@@ -505,6 +506,7 @@ impl<G: Getter<Quantity, E> + ?Sized, E: Copy + Debug> Updatable<E> for Integral
             Some(some) => some,
             None => {
                 self.prev_output = Some(output);
+                self.value = Ok(None);
                 return Ok(());
             }
         };
